@@ -764,3 +764,36 @@ for _t, _v, _k, _i in [
     _cl = _stores_copy(_v, _k, _i)
     _c.ensures.append(_cl)
     _c.props |= _cl.props
+
+
+# ------------------------------------------------------------------ area coordinates at table level (C19)
+def _is_none(v):
+    return v is None
+
+
+def _area4(a, r, p):
+    w, h = vlen(a.self, "cols"), vlen(a.self, "rows")
+    c = a.coord
+    return S.And(_wrapped(c[0], w, r[0]), _wrapped(c[1], h, r[1]), _wrapped(c[2], w, r[2]), _wrapped(c[3], h, r[3]))
+
+
+def _area_rows(a, r, p):
+    h = vlen(a.self, "rows")
+    c = a.coord
+    last = c[1] if len(c) == 2 else c[0]
+    return S.And(_is_none(r[0]), _is_none(r[2]), _wrapped(c[0], h, r[1]), _wrapped(last, h, r[3]))
+
+
+contract(
+    "odfdo.table:Table._translate_table_coordinates_list",
+    sig=[dict(self=_table(), coord=TupleOf(Int, Int, Int, Int)),
+         dict(self=_table(), coord=TupleOf(Int, Int)),
+         dict(self=_table(), coord=TupleOf(Int))],
+    requires=lambda a: S.And(inv_vault(a.self, "rows"), inv_vault(a.self, "cols")),
+    ensures=[Clause("area-negative-from-end", {"C19"},
+                    lambda a, r, p: _area4(a, r, p) if len(a.coord) == 4 else _area_rows(a, r, p))],
+    result=TupleOf(OptInt, OptInt, OptInt, OptInt),
+    concretize=concretize_vault, gen=gen_vault, observer=True,
+    note="integer forms (x, y, z, t), (y, t) and (y,): every negative entry wraps against width / height, "
+         "row forms leave the columns open (None)",
+)
